@@ -15,8 +15,6 @@ NATIVE = []
 FILE_DEPS = {
     'src/mnemonic.rs': ['src/mnemonic/wordlist.rs', 'src/rand.rs'],
     'src/transaction/legacy.rs': ['src/transaction/rlp.rs'],
-    'src/transaction/eip2930.rs': ['src/transaction/rlp.rs'],
-    'src/transaction/eip1559.rs': ['src/transaction/rlp.rs'],
 }
 
 
